@@ -23,8 +23,9 @@ Definition handed_policy_ok (t : list (option bool)) (src dst : N) (offered : li
 Definition handed_live_ok (p : path) (now_ns : N) : bool :=
   match p_exp p with Some e => now_ns <? e * 1000000000 | None => true end.
 Definition cache_bound_ok (max_cached : N) (n_cached : N) : bool := n_cached <=? N.max max_cached 1.
+(* the map within the configured size, the FIFO (lazy deletion) within twice that *)
 Definition issue_bound_ok (size : N) (n_cache n_fifo : N) : bool :=
-  (n_cache <=? N.max size 1) && (n_fifo <=? N.max size 1).
+  (n_cache <=? N.max size 1) && (n_fifo <=? 2 * N.max size 1).
 (* after a lookup at [now]: no sooner than the minimum delay, no later than the ceiling;
    [slack] absorbs the f32 rounding of the backoff ceiling *)
 Definition refetch_window_ok (min_delay refetch bo_max slack now next : N) : bool :=
